@@ -343,7 +343,9 @@ func TestPropSynthetic(t *testing.T) {
 			t.Fatalf("generator violated a precondition: %s", bad)
 		}
 		genWidths(t, c, m)
+		ev.Journal("C02/termination", c) // names the culprit should the process hang or die
 		out := evaluate(t, c, b, m)
+		ev.JournalDone()
 		classify(c, m, &out)
 		record(c, &out)
 	})
@@ -370,7 +372,9 @@ func TestPropPipeline(t *testing.T) {
 			return
 		}
 		genWidths(t, c, m)
+		ev.Journal("C02/termination", c)
 		out := evaluate(t, c, b, m)
+		ev.JournalDone()
 		classify(c, m, &out)
 		record(c, &out)
 	})
